@@ -42,6 +42,12 @@ package memmetrics
 //@ axiom vsum_zero: forall c *RollingCounter :: vsum(c, 0) == 0
 //@ axiom vsum_step: forall c *RollingCounter, k int :: 1 <= k && k <= len(c.values) ==> vsum(c, k) == vsum(c, k - 1) + c.values[k - 1]
 
+// wcount(c, t): the sum of the increments recorded in the N slots of the window that ends at t (a function of the ghost
+// per-slot sums only). Assumed: once the buckets are the window's slots (cleanAt), the sum over the buckets is that sum
+// (re-indexing of a finite sum along the injective slot -> bucket map; the same bridge the window property of C17 uses).
+//@ spec wcount(c *RollingCounter, t int) int reads RollingCounter.gsum RollingCounter.resolution RollingCounter.values
+//@ axiom bucket_sum_is_window_sum: forall c *RollingCounter, t int {wcount(c, t)} :: c != nil && c.resolution >= 1000000000 && len(c.values) >= 1 && cleanAt(c, t) ==> vsum(c, len(c.values)) == wcount(c, t)
+
 //@ func (*RollingCounter).getBucket
 //@   props C17
 //@   onlyaxioms slot_def bkt_def
@@ -95,12 +101,13 @@ package memmetrics
 //@ func (*RollingCounter).Count
 //@   props C17
 //@   assume clock_stable
-//@   onlyaxioms slot_monotone
+//@   onlyaxioms slot_monotone bucket_sum_is_window_sum
 //@   requires cfgOK(c) && RC(c) && lastclock >= (len(c.values) + 1) * c.resolution
 //@   modifies elems(c.values), c.tclean
 //@   ensures sum_of_buckets: result == vsum(c, len(c.values))
 //@   ensures buckets_are_window: cleanAt(c, lastclock)
 //@   ensures keeps_invariant: RC(c) && cfgOK(c)
+//@   ensures {C18} count_of_the_window: result == wcount(c, lastclock)
 
 // Clone hands out an independent snapshot: its buckets are a new array (an exported copy must not share them with the
 // live counter, which keeps cleaning and counting into its own).
@@ -369,11 +376,24 @@ package memmetrics
 //@   ensures histogram_or_error: result1 == nil ==> histOK(result0) && fresh(result0)
 //@   ensures merged_view_of_the_window: calls(Merged) == 1 && callarg(Merged, 0, 0) == m.histogram && result0 == callres(Merged, 0, 0) && result1 == callres(Merged, 0, 1)
 
+// csum(s, m, lo, hi, t): the sum, over the status codes k in s with lo <= k < hi, of the window count of the counter
+// recorded under k (defined by its two equations: empty set, one more element).
+//@ spec csum(s intset, m *RTMetrics, lo int, hi int, t int) int reads RTMetrics.statusCodes mapof(RTMetrics.statusCodes) RollingCounter.gsum RollingCounter.resolution RollingCounter.values
+//@ axiom csum_empty: forall s intset, m *RTMetrics, lo int, hi int, t int {csum(s, m, lo, hi, t)} :: s == emptyset ==> csum(s, m, lo, hi, t) == 0
+//@ axiom csum_add: forall s intset, k int, m *RTMetrics, lo int, hi int, t int {csum(setadd(s, k), m, lo, hi, t)} :: !setin(s, k) ==> csum(setadd(s, k), m, lo, hi, t) == csum(s, m, lo, hi, t) + ite(lo <= k && k < hi, wcount(m.statusCodes[k], t), 0)
+
+// C18: the response-code ratio the trip condition reads is the quotient of two sums of window counts, over the recorded
+// codes in [startA, endA) and in [startB, endB); 0 when the denominator is empty.
 //@ func (*RTMetrics).ResponseCodeRatio
 //@   props C18
-//@   trusted
+//@   atomic m.statusCodesLock
+//@   assume clock_stable
 //@   requires m != nil
-//@   modifies external
+//@   modifies allelems(int), RollingCounter.tclean
+//@   ensures ratio_of_window_counts: result == ite(csum(domset(m.statusCodes), m, startB, endB, lastclock) != 0, real(csum(domset(m.statusCodes), m, startA, endA, lastclock)) / real(csum(domset(m.statusCodes), m, startB, endB, lastclock)), 0.0)
+//@   loop 1 invariant m != nil && metricsOK(m) && statusOK(m)
+//@   loop 1 invariant forall k int :: visited(k) ==> in(k, m.statusCodes)
+//@   loop 1 invariant a == csum(visitedset, m, startA, endA, lastclock) && b == csum(visitedset, m, startB, endB, lastclock)
 
 //@ func (*HDRHistogram).LatencyAtQuantile
 //@   props C18
